@@ -30,7 +30,7 @@ def evaluate(sid):
             env = dict(os.environ, PKG=pkg, PYTHONPATH=pkg)
             try:
                 x = subprocess.run(["/venv/bin/python", os.path.join(d, "demo.py")], capture_output=True, text=True,
-                                   env=env, timeout=180)
+                                   env=env, timeout=90)
                 last = (x.stdout.strip().splitlines() or [""])[-1]
                 demo[label] = {"exit": x.returncode, "last_line": last[:300]}
             except subprocess.TimeoutExpired:
@@ -47,7 +47,12 @@ def evaluate(sid):
         own = meta["property"]
         meta["evaluation"] = {
             "demo": demo,
-            "demo_confirms": demo.get("unchanged", {}).get("exit") == 0 and demo.get("changed", {}).get("exit") == 1,
+            # a demo that no longer returns on the changed tree (a wedged run: its own watchdog cancels co_run(),
+            # and since the repair F12 a cancelled tidy goes on waiting for tasks that never end) shows the
+            # violation as a hang
+            "demo_confirms": demo.get("unchanged", {}).get("exit") == 0
+            and demo.get("changed", {}).get("exit") in (1, "timeout"),
+            "demo_hangs_on_changed_tree": demo.get("changed", {}).get("exit") == "timeout",
             "detected_by_own_check": det.get(own, {}).get("rc") == 1,
             "own_check_rules": det.get(own, {}).get("rules", []),
             "violations_in": sorted(p for p, v in det.items() if v["rc"] == 1),
